@@ -2,7 +2,8 @@
    least-squares specification over the reals (Proofs/LfqSpec.v).  The theorems over R depend on the axioms of Coq's
    real numbers, listed by Print Assumptions below. *)
 From Coq Require Import Reals.
-From PGF Require Import Base.Prelude Base.PyStr Base.StableSort Model.Quant Model.Lfq Proofs.LfqProofs Proofs.LfqScale Proofs.LfqRename Proofs.LfqSpec.
+From PGF Require Import Base.Prelude Base.PyStr Base.StableSort Model.Quant Model.Lfq Proofs.LfqProofs Proofs.LfqScale Proofs.LfqRename Proofs.LfqOrder Proofs.LfqSpec.
+From Coq Require Import Permutation.
 
 (* ----- exact layer (Q) ----- *)
 Local Open Scope Q_scope.
@@ -93,6 +94,42 @@ Example C11_renaming_witness :
   str_compare (s2l "x_" ++ s2l "E10") (s2l "x_" ++ s2l "E2") = str_compare (s2l "E10") (s2l "E2") /\
   str_compare (s2l "x_" ++ s2l "a") (s2l "x_" ++ s2l "a") = Eq.
 Proof. split; vm_compute; reflexivity. Qed.
+
+(* "the result does not depend on precursor order": every exact stage is the same for every permutation of the precursor list,
+   provided the sort key (peptide, charge, experiment, fraction, -intensity, PEP) is a linear order on the precursors that are used
+   (no two distinct ones compare equal both ways; transitive) *)
+Theorem C11_precursor_order_invariant : forall cut exps ns minr stab graph ms l l',
+  Permutation l l' -> key_separates (filter (l_used cut) l) ->
+  lfq_exact cut exps ns minr stab graph ms l = lfq_exact cut exps ns minr stab graph ms l'.
+Proof. exact lfq_exact_perm. Qed.
+Print Assumptions C11_precursor_order_invariant.
+
+(* the proviso holds whenever every used precursor carries a PEP (no match-between-runs row among them: a NaN compares "not less"
+   both ways, which is not transitive) and no two distinct used precursors tie on the whole key *)
+Theorem C11_precursor_order_proviso : forall U,
+  (forall p, In p U -> has_pep p) ->
+  (forall x y, In x U -> In y U -> key_leb x y = true -> key_leb y x = true -> x = y) ->
+  key_separates U.
+Proof. exact key_separates_sufficient. Qed.
+Print Assumptions C11_precursor_order_proviso.
+
+(* without the proviso the clause is FALSE of the model: of two rows that tie on the whole key the first in file order supplies
+   the SILAC channels (replayed on the implementation by the check: see DESIGN 0.5, "observed") *)
+Theorem C11_precursor_order_matters_on_full_key_ties :
+  Permutation [tie_a; tie_b] [tie_b; tie_a] /\
+  peptide_intensities (1#1) 2 2 [tie_a; tie_b] <> peptide_intensities (1#1) 2 2 [tie_b; tie_a].
+Proof. exact precursor_order_matters_on_full_key_ties. Qed.
+Print Assumptions C11_precursor_order_matters_on_full_key_ties.
+
+(* non-vacuity: three precursors (one block with two candidates, a second charge state in a second experiment) meet the proviso,
+   a rotation of the list gives the same non-empty stages *)
+Theorem C11_precursor_order_witness :
+  key_separates (filter (l_used (1#1)) [ov1; ov2; ov3]) /\
+  lfq_exact (1#1) [s2l "E1"; s2l "E2"] 0 1 false None 0 [ov1; ov2; ov3] =
+  lfq_exact (1#1) [s2l "E1"; s2l "E2"] 0 1 false None 0 [ov3; ov1; ov2] /\
+  st_matrix (lfq_exact (1#1) [s2l "E1"; s2l "E2"] 0 1 false None 0 [ov1; ov2; ov3]) <> [].
+Proof. exact order_witness. Qed.
+Print Assumptions C11_precursor_order_witness.
 
 Local Close Scope Q_scope.
 (* ----- specification layer (R) ----- *)
